@@ -30,8 +30,9 @@ BM_NB = {0: (1, 3, 4), 1: (2, 0, 5), 2: (3, 1, 6), 3: (0, 2, 7), 4: (7, 5, 0), 5
 _EDGES = {(a, b) for a in range(8) for b in range(8) if sum(abs(x - y) for x, y in zip(BM_COORD[a], BM_COORD[b])) == 1}
 # the 48 relabellings of the hexahedron (24 rotations and their mirrored companions)
 SYM48 = [p for p in itertools.permutations(range(8)) if all((p[a], p[b]) in _EDGES for a, b in _EDGES)]
+_SYM48_SET = set(SYM48)
 TOL = 1e-7  # the merge tolerance the property speaks of
-_THEOREM_STATS = {"asked": 0, "clear": 0}
+_THEOREM_STATS = {"asked": 0, "clear": 0, "contract": 0, "contract_returned": 0}
 
 
 def _report_theorem_stats():
@@ -40,7 +41,8 @@ def _report_theorem_stats():
 
         print(
             f"[c18] T_C18_clear_view: hypotheses hold (exactly) for {_THEOREM_STATS['clear']} of "
-            f"{_THEOREM_STATS['asked']} re-orientations sent to the model",
+            f"{_THEOREM_STATS['asked']} re-orientations sent to the model; hull contract of T_C18_returns_relabelling holds for "
+            f"{_THEOREM_STATS['contract']} ({_THEOREM_STATS['contract_returned']} of them returned)",
             file=sys.stderr,
         )
 
@@ -492,9 +494,11 @@ class C18(core.Check):
         "relabellings of the input and right-handed; guards/constants/recipes of the source are regenerated with ast and "
         "tied to the model (T_C18_tie_*); round 6b: for planar-sided right-handed blocks a clear view implies Canonical "
         "(T_C18_clear_view_canonical), vertex objects at one position (merged patches) are returned together "
-        "(T_C18_duplicates_together), get_common_point rejects with DegenerateGeometryError only (repair 70219c0). Only "
+        "(T_C18_duplicates_together), get_common_point rejects with DegenerateGeometryError only (repair 70219c0); round 6c: "
+        "under the hull contract (validator c18.contract, no view involved) every returning run, ties and dubious views "
+        "included, is one of the 48 relabellings and right-handed (T_C18_returns_relabelling). Only "
         "validator/oracle-checked: that the returned numbering of a block with warped sides satisfies Canonical "
-        "as stated on the side area vectors (the theorem is stated on the hull triangles), that views without a clear winner give one of the 48 relabellings, and that scipy's hull is a "
+        "as stated on the side area vectors (the theorem is stated on the hull triangles), that views without a clear winner on blocks whose adjacent sides are less than 60 degrees apart give one of the 48 relabellings, and that scipy's hull is a "
         "triangulation of the six sides (hypothesis of the theorem, decided per case)."
     )
 
@@ -915,6 +919,7 @@ class C18(core.Check):
             for r in _clear_asked(impl):
                 tris = ";".join("-".join(map(str, s)) for s in r["simplices"])
                 reqs.append(f"c18.clear {_pt(case['obs'])} {_pt(case['ceil'])} {_pts(base[r['num']])} {tris}")
+                reqs.append(f"c18.contract {_pts(base[r['num']])} {tris}")  # hull contract of T_C18_returns_relabelling
         return reqs
 
     def compare(self, case: dict, impl: Any, model: List[str]) -> Optional[str]:
@@ -982,7 +987,7 @@ class C18(core.Check):
                 return f"validator: what scipy.spatial.ConvexHull answered is not a closed convex triangulation: {model[pos]}"
             pos += 1
         asked = _clear_asked(impl)
-        if len(model) - pos - len(asked) == 1:  # the validator request
+        if len(model) - pos - 2 * len(asked) == 1:  # the validator request
             if model[pos] != "ok":
                 return f"validator Canonical rejects the implementation's result in a clear view: {model[pos]}"
             pos += 1
@@ -1008,6 +1013,24 @@ class C18(core.Check):
                 # guards against a vacuous theorem: a view that is clear by the margin 1e-3 for every triangulation
                 # must satisfy the exact hypotheses
                 return f"numbering {r['num']}: the view is clear by the margin {CLEAR} but the hypotheses of T_C18_clear_view are not met"
+            # T_C18_returns_relabelling: under the hull contract (decided exactly by the model's validator, no view
+            # involved) every run that returns is one of the 48 relabellings of the input numbering
+            con = model[pos]
+            pos += 1
+            valid_numbering = tuple(r["num"]) in _SYM48_SET
+            if con == "contract":
+                _THEOREM_STATS["contract"] += 1
+                if "out" in r:
+                    _THEOREM_STATS["contract_returned"] += 1
+                    idx = tuple(r["num"].index(i) if i in r["num"] else 8 for i in r["out"])
+                    if idx not in _SYM48_SET:
+                        return (f"numbering {r['num']}: the hull contract holds (T_C18_returns_relabelling) but the "
+                                f"implementation returns {list(idx)}, not one of the 48 relabellings of its input")
+            elif con != "nocontract":
+                return f"numbering {r['num']}: c18.contract answers {con}"
+            elif valid_numbering and case["hex"] == "box" and len(r["simplices"]) == 12:
+                # guards against a vacuous theorem: a box (sides 90 degrees apart) numbered like a block satisfies the contract
+                return f"numbering {r['num']}: a {case['hex']} block does not satisfy the hull contract of T_C18_returns_relabelling"
         if len(predicted) > 1:
             return f"T_C18_canonicalises: different numberings predicted for one block and view: {sorted(predicted)}"
         return None
